@@ -240,14 +240,43 @@ static const char *known_trigger(const std::string &raw)
 		}
 		text += raw[i];
 	}
+	// F3 parse.cpp:520 get_elt reads past the end of a name that ends with '[' (no closing bracket): any token
+	//    holding a '[' without a later ']' is skipped
+	{
+		bool open = false;
+		for (size_t i = 0; i <= text.size(); i++) {
+			char c = i < text.size() ? text[i] : '\n';
+			if (c == '[') open = true;
+			else if (c == ']') open = false;
+			else if (c == ' ' || c == '\t' || c == '\n' || c == '\r' || c == ';' || c == '\0') { if (open) return "unterminated_bracket"; }
+		}
+	}
+	// F1 SS.cxx:82 cxxSS::dump_raw prints p[0..3] although the SOLID_SOLUTIONS options that take parameters
+	//    leave p with fewer than four elements: heap overflow whenever such an assemblage is dumped (DUMP, or the
+	//    state dump of set_and_run_wrapper after a convergence failure)
+	static const char *SS_P_OPTS[] = {"activity_coefficients", "distribution_coefficients", "miscibility_gap", "spinodal_gap",
+	                                  "critical_point", "alyotropic_point", "thompson", "margules"};
+	int kw = Keywords::KEY_NONE;
 	for_each_first_token(text, [&](const std::string &tok) {
-		if (tok.size() < 2 || tok[0] != '-') return;
-		std::string o = tok.substr(1);
-		// K1 integrate.cpp:430 qromb_midpnt forms &h[-1] (1-based polint idiom) whenever the Borkovec-Westall
-		//    diffuse-layer integration runs: SURFACE -diffuse_layer / -ddl without -donnan, SURFACE_RAW/_MODIFY -dl_type
-		if (is_prefix_of(o, "diffuse_layer") || is_prefix_of(o, "ddl") || is_prefix_of(o, "dl_type")) hit = "diffuse_layer_polint";
+		int k = Keywords::Keyword_search(tok);
+		if (k != Keywords::KEY_NONE) { kw = k; return; }
+		if (kw == Keywords::KEY_SOLID_SOLUTIONS) {
+			for (const char *o : SS_P_OPTS) {
+				if (tok[0] == '-' ? is_prefix_of(tok.substr(1), o) : tok == o) hit = "ss_parameter_options_dump";
+			}
+		}
 	});
 	return hit;
+}
+
+// F2 Phreeqc::unnumbered_solutions (SOLUTION_SPREAD rows without a number) is cleared only by tidy_solutions: when
+//    a run stops with input errors before that, the parked solutions survive clean_up()/LoadDatabase and the next
+//    run uses them with dangling string pointers (use-after-free, SIGSEGV in the release build).  The trigger is
+//    recognised from the engine state after a failed call; the instance is then replaced instead of reloaded.
+static bool known_state_unnumbered(FI *I)
+{
+	if (g_no_known_filter) return false;
+	return !I->P()->unnumbered_solutions.empty();
 }
 
 // ---- UBSan reports (the asan variant is built with -fsanitize-recover=undefined, so the decision is made here):
